@@ -5,6 +5,11 @@ ROOT = os.path.dirname(os.path.dirname(os.path.abspath(__file__)))
 
 # id -> (technique, level text, level note, design ref)
 CLAIMED = {
+ "C20": ("effect analysis: stores to package-level variables (direct, or through values that flowed out of one: forward value flow with dynamic-type filtering, ≤8 call edges, ≤1 pointer hop) in everything reachable from the load and request entry points; stores to package-meta struct fields reachable from the request API; who-may-write rule for the lazily compiled constraint order",
+         "The library has no synchronisation at all, so race freedom can only come from the absence of shared writes. The check decides exactly that absence for the analysed code: no function reachable from loading or using a module writes repository package-level state (sync/atomic excepted) and no function reachable from the request API writes a field of a compiled-schema object; the per-request cache is written only on per-request objects. It does not run schedules and says nothing about user-supplied nodes.",
+         "Trusts the VTA call graph; the value-flow is bounded (8 call edges, one pointer hop from the variable) and type-filtered; two sites are triaged by a typestate argument (anyType is complete at init) that a separate rule re-checks on every run.",
+         "DESIGN.md §2 C20"),
+
  "C13": ("reachability of crash classes (explicit panic, unchecked type assertion, constant index) from the request-facing API in the VTA call graph, with dominance/guard-summary/sealed-interface/Format-test/dynamic-type-set dischargers and a per-site triage table",
          "Decides that no explicit panic, unchecked type assertion or constant/len-relative index that request content could trigger is reachable from Selection/Browser/reader/writer/xpath/NewValue entry points, except sites listed as known findings; any new such site (a dropped guard, a new assertion, a new panic) is reported with its call chain. It does not decide nil dereferences outside these classes, arithmetic indexes, recursion depth on nested input or hangs.",
          "Trusts the VTA call graph (no reflect.Value.Call/unsafe into the library), the closed-world assumption for sealed meta interfaces, and the triage table's per-site reasons (API-misuse preconditions and schema invariants, each confirmed by reading).",
